@@ -46,6 +46,12 @@ CHECKS = {
    note="Trusted: generator keeps the tree, evaluator is 10 lines. Identifier alphabet limited to the stated character classes; <= 7 genes per rule.",
    technique="runtime oracle monitor, bounded-exhaustive + random rules",
    ref="DESIGN.md §4 C08"),
+ "C09": dict(
+   level="exploration",
+   text="Exact oracle monitor: pfba / linear moma / room results are compared with exact rational solutions of the documented formulations (pFBA: minimal total flux under the objective requirement, also with objective= and reactions=; MOMA: minimal summed distance to the given or captured default reference in wild-type and knock-out states; ROOM: minimal number of fluxes outside the band by exhaustive subset enumeration; linear ROOM: the documented relaxation); returned vectors are checked for feasibility in the model as given.",
+   note="Trusted: exactlp certificates. ROOM exact up to a minimal count of 4; inputs where 1e-15 noise of the float reference decides the exact answer, or where a big-M coefficient (bound - w) is below 1e-7, are borderline-skipped (GLPK's unpresolved simplex is unreliable there).",
+   technique="runtime oracle monitor (exact LP / exhaustive MILP enumeration)",
+   ref="DESIGN.md §4 C09"),
  "C15": dict(
    level="fault_enumeration",
    text="Reference-model monitor in lock-step with the real DictList: bounded-exhaustive operation sequences (every index in [-n-2,n+1], every slice, every failing argument position) plus seeded random long sequences; coherence, list-semantics equality and unchanged-on-raise judged after every step. Exhaustive within the stated bounds, sampled beyond.",
